@@ -77,8 +77,9 @@ _seq("C02", "exact results",
      "bounded-exhaustive input and history enumeration against a reference model (explicit enumeration, no sampling)")
 _seq("C23", "statistics account for every block once",
      "per-block accounting rules evaluated on the Stats of every query of the C01 enumeration, against block contents read back through the public helpers",
-     "fault-free completions only in this part; accounting under read faults is explored by the fault-enumeration part when present",
-     "bounded-exhaustive enumeration of queries x layouts with an accounting oracle")
+     "sweep part: fault-free completions; fault part: a failure at every DataStore call position of 10 queries x 5 layouts x concurrency {1,4}; scheduler part: queries ended by Close or cancellation while a block scan is unfinished (450-row block, 66-row block, injected faults) - at-most-once, processed source of every returned row, zero counts for skipped blocks; all-or-none per file is not asserted for queries ended by Close or cancellation (blocks never reached are not evaluated blocks)",
+     "bounded-exhaustive enumeration of queries x layouts x fault positions with an accounting oracle, plus controlled-scheduler exploration of early termination",
+     extra_parts=[{"engine": "sched", "family": "C23"}], budget={"quick": 200, "thorough": 1500})
 _seq("C24", "pruning is effective",
      "every query of the C01 enumeration runs over a recording DataStore; opens and read extents are compared with the pruning the stored filters and prefilter metadata imply",
      "expected pruning is computed from the stored filters themselves (independent filter evaluator, fail-open on absent filters) and the public EvaluateDataBlockMetadata",
